@@ -604,6 +604,11 @@ def c20(tier, seed):
     scns.append(with_windows(scenario("mr_x_catdate3", [rows, cat("B", 3, date=True)]), 3, rows))
     rows = cat("A", 2)
     scns.append(with_windows(scenario("cat_x_cat3.nodate", [rows, cat("B", 3)]), 3, rows))
+    # a datetime (enum) dimension is a series of dates too, but only a categorical-date one is smoothed
+    scns.append(with_windows(scenario("cat_x_datetime3.nodate", [rows, cat("B", 3, subtype="datetime")]),
+                             3, rows))
+    scns.append(with_windows(scenario("mr_x_text3.nodate", [mr("A", 2), cat("B", 3, subtype="text")]),
+                             3, mr("A", 2)))
     scns.append(with_windows(scenario("cat_x_catdate3_y", [rows, cat("B", 3, date=True)], **y), 3, rows))
     rows = cat("A", 4, miss=[3], date=True)
     scns.append(with_windows(scenario("catdate_1d_y", [rows], **y), 3, rows, on_rows=True))
